@@ -20,7 +20,7 @@ ASSUMPTIONS = ['exact unfolding ranks of D(x) are measured by the harness (singu
                '1e3*u*S_rep < 0.1*eps*||D(x)|| so representation roundoff cannot legitimately hold a rank up',
                '"rmax binding" decided conservatively: error clause skipped whenever a returned rank equals its cap']
 REQUIRED_REACH = ['_decomposition:round_tt', '_decomposition:lr_orthogonal', '_decomposition:rank_chop', '_tt_base:TT.round']
-REQUIRED_COUNTS = {'history_value_checks': 200, 'kind:tensor': 1, 'kind:operator': 1, 'order1': 1, 'rmax:int': 1, 'rmax:list': 1, 'eps:zero': 1, 'rank_decreased_executions': 50,
+REQUIRED_COUNTS = {'history_value_checks': 200, 'kind:tensor': 1, 'kind:operator': 1, 'order1': 1, 'rmax:int': 1, 'rmax:list': 1, 'rmax:list-reused-across-calls': 5, 'eps:zero': 1, 'rank_decreased_executions': 50,
                    'breakpoints_bisected': 5, 'operand_checked_bit_identical': 100, 'exact_rank_clause_applied': 20}
 LINE_FUNCS = ['round_tt', 'lr_orthogonal', 'TT.round', 'rank_chop']
 CASE_TIMEOUT = {'quick': 120, 'thorough': 300}
@@ -177,7 +177,7 @@ def _gauge(cores, g, dt, cond):
     return out
 
 
-def observe(ctx, case, x, dx, srep, nrm, exact_ranks, eps, rmax, label):
+def observe(ctx, case, x, dx, srep, nrm, exact_ranks, eps, rmax, label, caps_written=None):
     import torchtt
     dt = x.cores[0].dtype
     d = len(x.N)
@@ -187,6 +187,7 @@ def observe(ctx, case, x, dx, srep, nrm, exact_ranks, eps, rmax, label):
     ctx.count('executions')
     snap = hooks.Snap(x)
     Rx = [int(r) for r in x.R]
+    caps0 = caps_written if caps_written is not None else (list(rmax) if isinstance(rmax, list) else None)      # the caps as the caller wrote them (the list object itself may be reused across calls)
     if rmax is None:
         y = ctx.lib('round', lambda t: t.round(eps), x)
     else:
@@ -216,7 +217,7 @@ def observe(ctx, case, x, dx, srep, nrm, exact_ranks, eps, rmax, label):
         ctx.viol(key + '/clause=rank-increased', '%s: R %s -> %s' % (what, Rx, Ry))
     caps = None
     if rmax is not None:
-        caps = rmax if isinstance(rmax, list) else [1] + [rmax] * (d - 1) + [1]
+        caps = caps0 if caps0 is not None else [1] + [rmax] * (d - 1) + [1]
         if any(Ry[k] > caps[k] for k in range(d + 1)):
             ctx.viol(key + '/clause=rank>rmax', '%s: R=%s caps=%s' % (what, Ry, caps))
     binding = caps is not None and any(Ry[k] >= caps[k] for k in range(1, d))
@@ -278,6 +279,15 @@ def run_random(case, ctx, g):
         rmax = [1] + [rr.choice((1, 2, 3, 50)) for _ in range(d - 1)] + [1]
     if rmax is not None:
         ctx.count('rmax:' + case['rmax'])
+    if isinstance(rmax, list) and d > 1 and case['seed'] % 2 == 0:
+        # the caller keeps ONE per-bond list and uses it for several tensors: first for a rank-1 tensor of the same shape, then for x
+        import torchtt
+        wanted = list(rmax)
+        x1 = gens.make_tt(list(x.N), [1] * (d + 1), x.cores[0].dtype, 'gauss', g, M=list(x.M) if x.is_ttm else None)
+        ctx.lib('round', lambda t: t.round(case['eps'], rmax), x1)
+        ctx.count('rmax:list-reused-across-calls')
+        observe(ctx, case, x, dx, srep, nrm, exact, case['eps'], rmax, 'random(reused rmax list, written as %s)' % wanted, caps_written=wanted)
+        return
     if case['eps'] == 0:
         ctx.count('eps:zero')
     observe(ctx, case, x, dx, srep, nrm, exact, case['eps'], rmax, 'random')
